@@ -140,3 +140,12 @@ CLAIMS["C04"] = (
     "store, so a C-level spin is a DFA-level fall-through cycle; a freeing delete resets its counter; the optimiser never merges across a yield's proxy. "
     "Found and repaired F-04 (parser that spins forever).",
     "Trusted: shape recognisers; the compiler's own cycle check for what it does follow. Not decided: cycles through MAY_GOTO_TARGET overrides, per-machine acyclicity.")
+CLAIMS["C01"] = (
+    "grammar/dispatch totality + handler-map dataflow + builder-chain and refusal-guard rules over the node converters; compiler correctness itself not decided",
+    "Static, necessary conditions only: the property is the correctness of a compiler whose core is data-dependent graph surgery and is NOT decided by this "
+    "technique family. Decided structural clauses without which it is false: statement totality; every child conversion receives the caller's handler map "
+    "(only a try body the extended copy) and the root map yields FAIL; parse-time handler scoping; every transition towards the no-match handler is a "
+    "non-consuming error path; effectful action classes are timing-strict and the three multi-attach sites refuse what they cannot schedule once; break "
+    "agreement between loop conversion, declared target and C template; action placement in literal matches; program-order linking. Passing says the "
+    "mechanism is wired as designed, not that every program's machine is right.",
+    "Trusted: shape recognisers over the converters. Not decided: append_after / _merge / set_next logic, i.e. behaviour of the compiled machine.")
